@@ -254,14 +254,10 @@ Print Assumptions bwd_sweep_zero_coupling.
 
 (* the step lengths consumed backwards are those of the grid measured from the far end ... *)
 Theorem bwd_steps_mirror : forall (L : R) (z : list R),
-  @Raman.dzs Num.NumR (map (fun x => L - x) (rev z)) = rev (@Raman.dzs Num.NumR z).
-Proof. exact Proofs.Raman.dzs_mirror. Qed.
+  @Raman.dzs Num.NumR (map (fun x => L - x) (rev z)) = rev (@Raman.dzs Num.NumR z) /\
+  Permutation (rev (@Raman.dzs Num.NumR z)) (@Raman.dzs Num.NumR z).        (* ... each used exactly once *)
+Proof. exact Proofs.Raman.dzs_mirror_once. Qed.
 Print Assumptions bwd_steps_mirror.
-
-(* ... each used exactly once *)
-Theorem bwd_steps_once : forall (z : list R), Permutation (rev (@Raman.dzs Num.NumR z)) (@Raman.dzs Num.NumR z).
-Proof. exact Proofs.Raman.bwd_steps_once. Qed.
-Print Assumptions bwd_steps_once.
 
 (* ================================================================================================
    PMD and PDL of a path (fibres, amplifiers, ROADMs): the model's rational squared accumulators are the
@@ -296,15 +292,13 @@ Proof. exact Proofs.FiberGen.gen_fiber_power. Qed.
 Print Assumptions C05_source_fiber_power.
 
 (* Fiber.propagate / RamanFiber.propagate: PMD in quadrature; CD and latency added *)
-Theorem C05_source_fiber_pmd_update : forall x y : R,
-  @FiberGen.g_fiber_pmd_update NumR x y = sqrt (x * x + y * y).
-Proof. exact Proofs.FiberGen.gen_fiber_pmd_update. Qed.
-Print Assumptions C05_source_fiber_pmd_update.
-
-Theorem C05_source_ramanfiber_pmd_update : forall x y : R,
-  @FiberGen.g_ramanfiber_pmd_update NumR x y = sqrt (x * x + y * y).
-Proof. exact Proofs.FiberGen.gen_ramanfiber_pmd_update. Qed.
-Print Assumptions C05_source_ramanfiber_pmd_update.
+Theorem C05_source_quadrature_updates : forall x y : R,
+  @FiberGen.g_fiber_pmd_update NumR x y = sqrt (x * x + y * y) /\
+  @FiberGen.g_ramanfiber_pmd_update NumR x y = sqrt (x * x + y * y) /\
+  @FiberGen.g_roadm_pmd_update NumR x y = sqrt (x * x + y * y) /\
+  @FiberGen.g_roadm_pdl_update NumR x y = sqrt (x * x + y * y).
+Proof. exact Proofs.FiberGen.gen_quadrature_updates. Qed.
+Print Assumptions C05_source_quadrature_updates.
 
 Theorem C05_source_ramanfiber_is_fiber : forall ci ai co s p x y cd lat scd slat : R,
   @FiberGen.g_ramanfiber_power_db NumR ci ai co s p = @FiberGen.g_fiber_power_db NumR ci ai co s p /\
@@ -333,14 +327,10 @@ Proof. exact Proofs.FiberGen.gen_fiber_loss. Qed.
 Print Assumptions C05_source_fiber_loss.
 
 Theorem C05_source_latency : forall fib, ~ (f_n1 fib == 0)%Q ->
-  Q2R (fiber_latency fib) = @FiberGen.g_latency NumR (Q2R c_light) (Q2R (len_m fib)) (Q2R (f_n1 fib)).
-Proof. exact Proofs.FiberGen.gen_latency. Qed.
+  Q2R (fiber_latency fib) = @FiberGen.g_latency NumR (Q2R c_light) (Q2R (len_m fib)) (Q2R (f_n1 fib)) /\
+  map (fun zl => Q2R (fst zl)) (lumped_m fib) = map (fun zl => @FiberGen.g_lumped_pos_m NumR (Q2R (fst zl))) (f_lumped fib).
+Proof. exact Proofs.FiberGen.gen_latency_and_positions. Qed.
 Print Assumptions C05_source_latency.
-
-Theorem C05_source_lumped_pos : forall fib, map (fun zl => Q2R (fst zl)) (lumped_m fib) =
-  map (fun zl => @FiberGen.g_lumped_pos_m NumR (Q2R (fst zl))) (f_lumped fib).
-Proof. exact Proofs.FiberGen.gen_lumped_pos_m. Qed.
-Print Assumptions C05_source_lumped_pos.
 
 (* Fiber.chromatic_dispersion, beta2, beta3 (pi and c are parameters of the generated terms) *)
 Theorem C05_source_chromatic_dispersion : forall pi fib f v, chromatic_dispersion pi fib f = Ok v ->
@@ -371,16 +361,6 @@ Theorem C05_source_beta3_slope : forall pi fib f d s b3, f_disp fib = DispScalar
 Proof. exact Proofs.FiberGen.gen_beta3_slope. Qed.
 Print Assumptions C05_source_beta3_slope.
 
-(* ROADM side: PMD and PDL of a crossing add in quadrature (Roadm.propagate), with the impairments of the profile that
-   set_roadm_paths selects: the one bound to the degree pair — id 0 included — else the first of the path type *)
-Theorem C05_source_roadm_pmd_update : forall x y : R, @FiberGen.g_roadm_pmd_update NumR x y = sqrt (x * x + y * y).
-Proof. exact Proofs.FiberGen.gen_roadm_pmd_update. Qed.
-Print Assumptions C05_source_roadm_pmd_update.
-
-Theorem C05_source_roadm_pdl_update : forall x y : R, @FiberGen.g_roadm_pdl_update NumR x y = sqrt (x * x + y * y).
-Proof. exact Proofs.FiberGen.gen_roadm_pdl_update. Qed.
-Print Assumptions C05_source_roadm_pdl_update.
-
 Theorem C05_source_roadm_profile : forall A (profiles : list (Z * Z * A)) global pt id,
   FiberGen.g_roadm_profile profiles global pt id = roadm_profile profiles global pt id.
 Proof. exact Proofs.FiberGen.gen_roadm_profile. Qed.
@@ -401,16 +381,13 @@ Theorem C05_source_euler_step : forall alpha cr dz ll p,
 Proof. exact Proofs.FiberGen.gen_euler_step. Qed.
 Print Assumptions C05_source_euler_step.
 
-Theorem C05_source_iter_sweep : forall (alpha : list R) (cr : list (list R)) (src : list R) (dz ll : R),
+Theorem C05_source_iter_sweep : forall (alpha : list R) (cr : list (list R)) (src : list R) (dz ll p g : R),
   @Raman.step_col NumR alpha cr src dz ll =
   map (fun t : R * (R * list R) => let '(p, (a, row)) := t in
-         @FiberGen.g_iter_fwd NumR p (@FiberGen.g_iter_dpdz NumR a row src) dz ll) (combine src (combine alpha cr)).
-Proof. exact Proofs.FiberGen.gen_step_col_iter_R. Qed.
+         @FiberGen.g_iter_fwd NumR p (@FiberGen.g_iter_dpdz NumR a row src) dz ll) (combine src (combine alpha cr)) /\
+  @FiberGen.g_iter_bwd NumR p g dz ll = @FiberGen.g_iter_fwd NumR p g dz ll.
+Proof. exact Proofs.FiberGen.gen_iter_sweeps. Qed.
 Print Assumptions C05_source_iter_sweep.
-
-Theorem C05_source_iter_bwd : forall p g dz ll : R, @FiberGen.g_iter_bwd NumR p g dz ll = @FiberGen.g_iter_fwd NumR p g dz ll.
-Proof. exact Proofs.FiberGen.gen_iter_bwd_is_fwd. Qed.
-Print Assumptions C05_source_iter_bwd.
 
 (* ================================================================================================
    non-vacuity: the hypotheses are satisfiable on non-trivial values *)
